@@ -2,11 +2,12 @@
 // mode, explicit event-loop turns); after every operation the live per-connection objects are observed (C10).
 //   case ::= ( kind fsize request clen ops )
 //     kind: 0 default handler (404), 1 FilesystemHandler streaming a file of fsize bytes, 2 QObjectHandler slot that
-//           waits for the whole body, 3 handler that writes a fragment and keeps the connection open
+//           waits for the whole body, 3 handler that writes a fragment and keeps the connection open, 4 handler that
+//           re-parents the socket to itself (as ProxyHandler does) and keeps it open
 //     ops:  (0 i n) next n request bytes arrive on connection i     (1 i) transport flushes everything written on i
 //           (2 i) peer of i resets      (3) one event-loop turn      (4) server object destroyed
 //           (5 i) application closes the HTTP socket of i            (6) new connection accepted
-//   obs  ::= ( ( ((hLive disc topen wrote payload)..) copiersLive fdDelta ) .. )   one entry per operation
+//   obs  ::= ( ( ((hLive disc topen wrote payload ownedByServer)..) copiersLive fdDelta ) .. )   one entry per operation
 #include <QCoreApplication>
 #include <QDir>
 #include <QFile>
@@ -42,6 +43,13 @@ public:
     using Handler::Handler;
 protected:
     void process(Socket *socket, const QString &) override { socket->write("partial"); }
+};
+class AdoptingHandler : public Handler
+{
+public:
+    using Handler::Handler;
+protected:
+    void process(Socket *socket, const QString &) override { socket->setParent(this); }   // what ProxyHandler::process does
 };
 struct Conn {
     QPointer<SimTcp> tcp;
@@ -82,6 +90,7 @@ static Val run_lifed(const Val &c)
     case 1: handler = new FilesystemHandler(tmp.path(), &scope); break;
     case 2: { auto *h = new QObjectHandler(&scope); h->registerMethod("slot", [](Socket *s) { s->readAll(); s->writeError(Socket::OK); }, true); handler = h; break; }
     case 3: handler = new PassiveHandler(&scope); break;
+    case 4: handler = new AdoptingHandler(&scope); break;
     default: handler = new Handler(&scope); break;
     }
     Server *server = new Server(handler);
@@ -138,13 +147,14 @@ static Val run_lifed(const Val &c)
         for (auto &p : conns) {
             qint64 payload = (kind == 1 && p->headEnd >= 0) ? p->written - p->headEnd : 0;
             cs.add(Val::List({Val::Bool(!p->sock.isNull()), Val::Bool(p->disc), Val::Bool(p->tcp && p->tcp->isOpen()),
-                              Val::Bool(p->written > 0), Val::Int(payload)}));
+                              Val::Bool(p->written > 0), Val::Int(payload),
+                              Val::Bool(p->sock.isNull() || (p->sock->parent() && !strcmp(p->sock->parent()->metaObject()->className(), "QHttpEngine::ServerPrivate")))}));
         }
         out.add(Val::List({cs, Val::Int(qhttpengine_verif_live_copiers - copiers0), Val::Int(openFds() - fd0)}));
     }
     // tear down whatever the schedule left behind
     delete server;
-    for (auto &p : conns) if (p->tcp && !p->sock) delete p->tcp.data();
+    for (auto &p : conns) { if (p->sock) delete p->sock.data(); else if (p->tcp) delete p->tcp.data(); }
     for (int i = 0; i < 4; ++i) turn();
     return out;
 }
